@@ -8,6 +8,7 @@ import (
 	"errors"
 	"fmt"
 	"io"
+	"io/fs"
 	"time"
 
 	"github.com/fogfish/golem/trait/pair"
@@ -62,7 +63,10 @@ type joiner struct {
 var joiners = []joiner{
 	{"nil", func(k, v int) (P, []kv) { return nil, nil }},
 	{"From(k,v)", func(k, v int) (P, []kv) { return pair.From(k, v), []kv{{k, v}} }},
-	{"From(k+10,v)+From(k+20,v+1)", func(k, v int) (P, []kv) {
+	{"From(k+10,v)[+From(k+20,v+1) unless v is 1]", func(k, v int) (P, []kv) { // one-element and two-element inner sequences in one traversal
+		if v == 1 {
+			return pair.From(k+10, v), []kv{{k + 10, v}}
+		}
 		return plusAll(pair.From(k+10, v), pair.From(k+20, v+1)), []kv{{k + 10, v}, {k + 20, v + 1}}
 	}},
 	{"nil-if-v-odd", func(k, v int) (P, []kv) {
@@ -109,7 +113,10 @@ var fromSeqs = []fromSeqFn{
 		}
 		return pair.From(x, 100+x), []kv{{x, 100 + x}}
 	}},
-	{"two", func(x int) (P, []kv) {
+	{"one-or-two", func(x int) (P, []kv) {
+		if x == 1 {
+			return pair.From(100+x, x), []kv{{100 + x, x}}
+		}
 		return plusAll(pair.From(100+x, x), pair.From(200+x, -x)), []kv{{100 + x, x}, {200 + x, -x}}
 	}},
 }
@@ -312,7 +319,7 @@ var errStop = errors.New("stop")
 
 // stopErrs: the errors a callback may return are arbitrary values, including ones that other code treats as "not
 // really an error"; ForEach hands back the very value it was given. The position decides which one is used.
-var stopErrs = []error{errStop, io.EOF, fmt.Errorf("reading: %w", io.EOF), context.Canceled, io.ErrUnexpectedEOF, errors.New("")}
+var stopErrs = []error{errStop, io.EOF, fmt.Errorf("reading: %w", io.EOF), context.Canceled, io.ErrUnexpectedEOF, errors.New(""), fs.SkipDir, fmt.Errorf("walk: %w", fs.SkipDir), fs.SkipAll}
 
 type checker struct{ r *drv.Result }
 
@@ -567,7 +574,7 @@ func main() {
 	}
 	drv.Main(drv.Property{
 		ID: "C15", Level: "model_checking", PanicIsViolation: true, MemLimitGB: 12,
-		Rule:        "two-sorted grammar: pair trees over From(100+i, i) (i=1..3), nil, TakeWhile/DropWhile/Filter x 7 predicates on (key,value), Map x 3 functions of (key,value), Plus, Join x 5 functions (nil, From, two-element Plus, nil-if-value-odd, predicate-terminated TakeWhile / nil), FromSeq x 3 functions over plain seq trees; plain seq trees over FromSlice leaves, ToSeq x 3 functions over pair trees, seq.Filter, seq.Map. Every tree of depth <= 3 of both sorts, and depth 4 with every non-Plus root over all depth-3 operands and Plus with one operand of depth <= 2 (thorough: each of those depth-4 trees again under every non-Plus root, i.e. depth 5). Keys differ from values (100+i vs i) and every function is asymmetric in its arguments, so a swapped or mismatched key/value shows. Each tree is rebuilt for every evaluation and driven as a state machine: at position i (Key(),Value()) == ref[i], Next() == (i+1<len); ForEach with an error injected at every visit position. states = (tree, position) pairs, transitions = Next / visit steps; non-trivial = lists with at least 2 pairs",
+		Rule:        "two-sorted grammar: pair trees over From(100+i, i) (i=1..3), nil, TakeWhile/DropWhile/Filter x 7 predicates on (key,value), Map x 3 functions of (key,value), Plus, Join x 5 functions (nil, From, a one-element From or a two-element Plus depending on the value, nil-if-value-odd, predicate-terminated TakeWhile / nil), FromSeq x 3 functions over plain seq trees; plain seq trees over FromSlice leaves, ToSeq x 3 functions over pair trees, seq.Filter, seq.Map. Every tree of depth <= 3 of both sorts, and depth 4 with every non-Plus root over all depth-3 operands and Plus with one operand of depth <= 2 (thorough: each of those depth-4 trees again under every non-Plus root, i.e. depth 5). Keys differ from values (100+i vs i) and every function is asymmetric in its arguments, so a swapped or mismatched key/value shows. Each tree is rebuilt for every evaluation and driven as a state machine: at position i (Key(),Value()) == ref[i], Next() == (i+1<len); ForEach with an error injected at every visit position. states = (tree, position) pairs, transitions = Next / visit steps; non-trivial = lists with at least 2 pairs",
 		Assumptions: []string{"iterators are not shared between trees; Next() is not called again after it returned false", "functions and values outside the alphabet are not covered"},
 		Cases: func(tier string) (int, func(int) string) {
 			cs := get(tier)
